@@ -48,7 +48,7 @@ ASSUMPTIONS = [
     "progress bar disabled (show_progress=False)",
     "update_E / update_H / update_detector_states do not read recording_state (reset keeps the recording buffers by design; re-runs are compared on fields, detector states and materials)",
 ]
-MIN_OBLIGATIONS = {"quick": 400, "thorough": 400}
+MIN_OBLIGATIONS = {"quick": 1800, "thorough": 1800}
 LEVEL_TEXT = (
     "Deductive proof for all shapes, states, total step counts and split points: the real ArrayContainer.reset zeroes every time-dependent leaf and keeps "
     "materials (so resets of containers sharing materials coincide); the real custom_fdtd_forward executes exactly end-start forward steps from its start "
